@@ -143,5 +143,10 @@ def tasks(tier):
             out.append(Task(inst, c17.guarded(lambda d=d, N=N, kname=kname: c17.signal_derivative_chain(d, N, kname), inst), kind="bounded", bound=dict(order=d, N=N, knots=kname, T="symbolic"),
                             replay=dict(harness="task_probe", module="contracts.c16", task=inst, tier=tier)))
     out += c17.sequence_tasks(tier, "C16")
+    # der(der(s)) of a b-spline signal evaluated THROUGH the transcription (samples on the control grid)
+    for meth in ("MS", "DC"):
+        for d in (2, 3):
+            inst = "C16/signal-chain-through-transcription[%s,d=%d]" % (meth, d)
+            out.append(Task(inst, c17.guarded(lambda meth=meth, d=d: c17.signal_pipeline(meth, d, 3, 2, "geometric"), inst), kind="bounded", bound=dict(method=meth, order=d, N=3, M=2, grid="geometric")))
     out.append(Task("C16/signal", signal_der, kind="bounded", bound=dict(signal_order=2), replay=dict(harness="task_probe", module="contracts.c16", task="C16/signal", tier=tier)))
     return out
